@@ -44,7 +44,10 @@ def run(ctx):
               "round 6: gun options under which Shoot touches the request / answer as a dimension of wire and hist cases (answlog all/warning/error, "
               "httptrace dump / trace, auto-tag, a logger accepting debug messages, redirect: true with 301 answers pointing at a follow-up path "
               "whose requests are counted, not compared); files delivered through the provider option `passes` (limit 0) instead of `limit` in a "
-              "quarter of the cases; raw entries with a Transfer-Encoding: chunked body; "
+              "quarter of the cases; raw entries with a Transfer-Encoding: chunked body; dial.dns-cache off; the http2 gun against an h2 target (TLS + keep-alive cases; "
+              "Cookie values compared joined by '; ' as HTTP/2 carries them); header lines (in-file and configured) written '[k: v]' / '[k:v]' / '[  k \\t:   v ]' and decoded on the "
+              "model side by the extracted decode_header, blank lines around the items, no final newline; raw + redirect: true cases: connection count judged with the "
+              "loose bound (net/http's Client.Do does not always reuse the connection of a ReadRequest-built request, design/C09.md); "
               "non-trivial: every tr and hist case; wire cases where the configuration defines headers and either some key "
               "(canonical form) is defined both by the configuration and by an entry/in-file header, or the file has more "
               "than one item; distinct = distinct case lines. Header comparison: map sorted by canonical key, value lists in "
